@@ -722,6 +722,16 @@ func (h *history) txnStep() {
 	if cfg.PDelAll > 0 && h.rng.Intn(100) < cfg.PDelAll && len(m.Live) > 0 {
 		spec = TxnSpec{Ops: []Op{{T: "delall", Chain: h.genChain()}}, Abort: h.rng.Intn(100) < cfg.Txn.PAbort}
 		h.stats["delete_all_transactions"]++
+		if m.KeyCol != "" && h.rng.Intn(3) == 0 {
+			// a narrowed selection, then DeleteKey of an existing key: deleting by key does not depend on the selection
+			for _, k := range h.wd.Keys {
+				if _, exists := m.keyOffset(k); exists {
+					spec.Ops = []Op{{T: "delkey", Key: k, Chain: h.genChain()}}
+					h.stats["delete_key_behind_a_filter_chain"]++
+					break
+				}
+			}
+		}
 	}
 	if len(spec.Ops) == 0 {
 		return
